@@ -5,10 +5,12 @@ import shutil
 import tempfile
 
 from ufo import build, err_kind
+import lib_C20
 
 ID = "C20"
 THEOREM = ("Ufo2ft.C20.C20_partial / C20_unscripted_everywhere / C20_languages / C20_kern_keys_partial / C20_dflt / "
-           "C20_model_failures_shapeA_partial / C20_false_as_stated / C20_quirk_witness / C20_rejects / C20_register")
+           "C20_model_failures_shapeA_partial / C20_false_as_stated / C20_quirk_witness / C20_rejects / C20_register / "
+           "C20_ds_extra_complete / C20_ds_extra / C20_ds_alternate_inherits / C20_ds_classify")
 N = {"quick": 1200, "thorough": 12000}
 RULE = ("fonts: 1-4 scripts drawn from latn/grek/cyrl/hebr/arab/deva/beng/khmr/mymr/nko/hira+kana/thai plus common glyphs and "
         "combining marks; kerning inside scripts, across scripts, with common glyphs and with marks (some through groups); "
@@ -21,7 +23,14 @@ RULE = ("fonts: 1-4 scripts drawn from latn/grek/cyrl/hebr/arab/deva/beng/khmr/m
         "feature file (debugFeatureFile, parsed). function level: KernFeatureWriter._registerLookups and "
         "ast.addLookupReferences on synthetic lookups/language maps. malformed stream: languagesystem lists feaLib rejects. "
         "non-trivial = generated kerning and at least one generated mark/mkmk/abvm/blwm/curs feature are both present (fonts), "
-        "or >= 2 scripts registered (function level).")
+        "or >= 2 scripts registered (function level). designspace stream (harness/lib_C20.py, n/12 cases + 2 corpus cases): 2-3 "
+        "masters on 1-2 axes, 1-3 scripts (LTR, RTL, dist-enabled), 1-3 <rules> where the same letters are usually replaced in "
+        "SEVERAL rules by a different alternate each (unencoded glyphs name.rK), a repeated substitution now and then; kerning per "
+        "script on the plain letters, on the alternates of ONE rule (any, not only the last), or mixed, sometimes through a group "
+        "or with a common glyph; top/_top anchors on letters, alternates and marks; languagesystems all / all+languages / subset "
+        "/ none; compiled with compileInterpolatableTTFsFromDS / OTFsFromDS; observed: the compiler's extraSubstitutions (wrapper "
+        "around _pre_compile_designspace), util.classifyGlyphs on that mapping, and each master's GPOS ScriptList. non-trivial "
+        "(designspace) = some glyph is replaced in >= 2 rules (function level), kerning and a mark feature both compiled (masters).")
 ASSUMED = [
     "feaLib parser/builder beyond the modelled registration logic (set_script/set_language/add_lookup_to_feature_/"
     "add_language_system/makeTable ScriptList) - measured by the 'build' stream on every generated font",
@@ -29,6 +38,9 @@ ASSUMED = [
     "Unicode script data (script extensions, direction, OpenType tags, DIST_ENABLED_SCRIPTS membership) is an input",
     "which glyphs a generated feature 'acts on' is read from the compiled lookups' primary coverage (base/ligature/mark2/"
     "cursive) and the glyphs' code points; glyphs without a specific script count for every script",
+    "designspace stream: an unencoded rule alternate belongs to the script(s) of the glyph(s) the rules replace by it (one "
+    "step); generated kerning 'acts on' a script when some kerning pair has both glyphs in that script and neither is "
+    "common/inherited (pairs with a common glyph on one side are not counted - see LEVEL_NOTE)",
 ]
 
 DFLT = "DFLT"
@@ -360,8 +372,12 @@ def corpus_cases():
 def gen(rng, n, mode):
     for c in corpus_cases():
         yield c
+    for c in lib_C20.corpus_ds():
+        yield c
     for i in range(n):
         yield gen_font(rng, mode)
+    for i in range(max(40, n // 12)):
+        yield lib_C20.gen_ds(rng, mode, BASES, MARKS, OTTAGS)
     m = max(4, n // 60)
     for i in range(m):
         yield {"kind": "register", "items": [gen_register(rng, mode) for _ in range(150)]}
@@ -709,6 +725,8 @@ def run_addrefs(item):
 def run(case):
     if case["kind"] == "font":
         return run_font(case)
+    if case["kind"] == "ds":
+        return lib_C20.run_ds(case, glyph_scripts)
     if case["kind"] == "register":
         return [run_register(it) for it in case["items"]]
     return [run_addrefs(it) for it in case["items"]]
@@ -718,6 +736,10 @@ def agree(req, rep):
     m, o = rep["model"], req["obs"]
     if req["op"] == "addrefs":
         return m == o
+    if req["op"] in ("extrasubs", "classify"):
+        return lib_C20.canon_map(m) == o
+    if req["op"] == "ds":
+        return True          # predicate-only stream
     if m.get("err") is not None or o.get("err") is not None:
         return m.get("err") == o.get("err")
     if req["op"] == "register":
@@ -747,6 +769,27 @@ def classify_failure(res):
 
 
 def shrink(case):
+    if case["kind"] == "ds":
+        fd = case["fd"]
+        for i in range(len(case["rules"])):
+            if len(case["rules"]) > 1:
+                c = dict(case); c["rules"] = case["rules"][:i] + case["rules"][i + 1:]
+                yield c
+        for i in range(len(fd["kerning"])):
+            c = dict(case); f = dict(fd); f["kerning"] = fd["kerning"][:i] + fd["kerning"][i + 1:]; c["fd"] = f
+            yield c
+        if len(case["masters"]) > 2:
+            c = dict(case); c["masters"] = case["masters"][:2]; c["axes"] = case["axes"][:1]
+            c["rules"] = [dict(r, conds=[["Weight", 600, 700]]) for r in case["rules"]]
+            yield c
+        for i in range(len(case["rules"])):
+            ru = case["rules"][i]
+            for j in range(len(ru["subs"])):
+                if len(ru["subs"]) > 1:
+                    c = dict(case)
+                    c["rules"] = case["rules"][:i] + [dict(ru, subs=ru["subs"][:j] + ru["subs"][j + 1:])] + case["rules"][i + 1:]
+                    yield c
+        return
     if case["kind"] != "font":
         for it in case["items"]:
             yield {"kind": case["kind"], "items": [it]}
@@ -792,4 +835,12 @@ LEVEL_NOTE = ("The unconditional property is false of the unchanged tree (known 
               "generated font); 'required' features, aalt/size, feature variations, contextual mark lookups and languagesystem "
               "statements placed after feature blocks are not modelled. Which scripts the kerning writer detects (script "
               "extensions, GSUB closure, bidi) is an input here (C05's subject); only 'registered script is one the exported "
-              "glyphs or the languagesystems support' is checked, through the known-shape delimitation.")
+              "glyphs or the languagesystems support' is checked, through the known-shape delimitation. "
+              "Designspace stream: the CONVERSE direction of the property (a language system that is in the compiled GPOS through "
+              "a generated mark/mkmk/abvm/blwm/curs feature exposes kern or dist too when kerning acts on glyphs of its script - "
+              "Spec.holdsDs) is predicate-only: evaluated by the Lean driver on every master's observed ScriptList (agree = True, "
+              "no model of the whole designspace pipeline; the kerning writer's script split is C05's model); any failure there "
+              "is a VIOLATION. It counts only pairs whose two glyphs are specific to the script: kerning between common glyphs "
+              "(kern_Default) is by design registered only under DFLT and under scripts that have lookups of their own, so a "
+              "declared script without own kerning does not get it - not claimed either way here. The variable-font path "
+              "(compileVariableTTF/OTF -> VariableFeatureCompiler), which passes no extraSubstitutions, is not generated.")
